@@ -14,7 +14,7 @@ RULE = ('cases = (model kind x input class x sampled trainer options x start) fi
 DECIDING = ['C01.M1', 'C01.M2', 'C01.M3', 'C01.M4', 'C01.init']
 MIN_DECIDED = {'quick': 150, 'thorough': 1500}
 NEEDS_HOOK = True
-CASE_TIMEOUT = {'quick': 120, 'thorough': 300}
+CASE_TIMEOUT = {'quick': 120, 'thorough': 1200}
 ASSUMPTIONS = ['component densities p_k are taken from the component objects own public log_pdf (as the statement says)',
                'scipy.special.logsumexp is correct']
 
@@ -65,10 +65,15 @@ def plan(tier, seed):
         cases.append(dict(lane='routine', K=int(rng.integers(1, 7)), N=int(rng.integers(1, 30)), lead=[[], [3], [2, 2]][int(rng.integers(0, 3))],
                           spread=float(rng.choice([1, 30, 300, 700])), eps=float(rng.choice([0, 0, 1e-10, 1e-3])),
                           mask=bool(rng.integers(0, 2)), wkind=['k1', 'full', 'kn'][int(rng.integers(0, 3))], f32=bool(rng.uniform() < 0.2), rs=[seed, 3, r]))
+    if tier == 'thorough':
+        cases.append(dict(lane='suite', rs=[seed, 99, 0]))
     return cases
 
 
 def run_case(case, R):
+    if case['lane'] == 'suite':
+        from vmon import suite_lane
+        return suite_lane.run(R, ID)
     with instr.fp_guard():
         {'fit': run_fit, 'init': run_init, 'routine': run_routine}[case['lane']](case, R)
 
